@@ -44,7 +44,8 @@ def _process_intervals_numba(ind, gaps, fi, res, g0, _buffer_size):
         tuple: (fi + 1, res) Updated fraction index and result buffer
 
     """
-    if len(gaps) > _buffer_size:
+    # len(gaps) gaps separate len(gaps) + 1 intervals
+    if len(gaps) >= _buffer_size:
         res[fi, 0, :] = -1
         res[fi, 1, :] = -1
         return fi + 1, res
